@@ -222,37 +222,37 @@ void h_rtrylock (void) { int r; setup (M_NONE); r = nsync_mu_rtrylock (&MU); vf_
 void h_unlock (void) { setup (M_W); nsync_mu_unlock (&MU); vf_assert (g_mode == M_NONE && !g_spin); }
 void h_runlock (void) { setup (M_R); nsync_mu_runlock (&MU); vf_assert (g_mode == M_NONE && !g_spin); }
 void h_unlock_nowake (void) { setup (M_W); writer_release_expect_clear = 0; nsync_mu_unlock_without_wakeup (&MU); vf_assert (g_mode == M_NONE && !g_spin); }
-static void mu_wait_body (unsigned k) {       /* C05: returns holding the mutex in the mode of entry; 0 exactly when the condition is true at return */
+static void mu_wait_body (unsigned k, int rd) {       /* C05: returns holding the mutex in the mode of entry; 0 exactly when the condition is true at return */
 	int r;
-	setup ((k & 1) ? M_R : M_W);
+	setup (rd ? M_R : M_W);
 	cond_var = 0;
 	timed_wait = (k & 2) != 0;
 	writer_release_expect_clear = 0;     /* the wait itself releases the lock without having changed anything */
 	r = nsync_mu_wait_with_deadline (&MU, &cond_plain, &cond_var, 0, (k & 2) ? nsync_time_s_ns (50, 0) : nsync_time_no_deadline, 0);
-	vf_assert (g_mode == ((k & 1) ? M_R : M_W) && !g_spin);
+	vf_assert (g_mode == (rd ? M_R : M_W) && !g_spin);
 	vf_assert (r == 0 || r == ETIMEDOUT);
 	vf_assert ((r == 0) == (cond_var != 0));         /* the lock is held here, so nobody changes cond_var any more */
 	if (!(k & 2)) { vf_assert (r == 0); }
 }
-static void cv_wait_body (unsigned k) {       /* C05 + C04: mode of entry restored; a wait that consumed a wake-up reports 0 */
+static void cv_wait_body (unsigned k, int rd) {       /* C05 + C04: mode of entry restored; a wait that consumed a wake-up reports 0 */
 	int r;
-	setup ((k & 1) ? M_R : M_W);
+	setup (rd ? M_R : M_W);
 	on_cv = 1;
 	writer_release_expect_clear = 0;
 	r = nsync_cv_wait_with_deadline (&CV, &MU, (k & 2) ? nsync_time_s_ns (50, 0) : nsync_time_no_deadline, 0);
 	on_cv = 0;
-	vf_assert (g_mode == ((k & 1) ? M_R : M_W) && !g_spin && !g_cvspin);
+	vf_assert (g_mode == (rd ? M_R : M_W) && !g_spin && !g_cvspin);
 	vf_assert (r == 0 || r == ETIMEDOUT);
 	if (woken_by_signal) { vf_assert (r == 0); }       /* C04: never reported as a timeout */
 	if (!(k & 2)) { vf_assert (r == 0); }
 }
 /* one query per lock mode (constant), the deadline / no-deadline choice stays symbolic: smaller formulas, run in parallel */
-void h_mu_wait_w (void) { mu_wait_body ((vf_nondet_nv () & 2) | 0); }
-void h_mu_wait_r (void) { mu_wait_body ((vf_nondet_nv () & 2) | 1); }
-void h_cv_wait_w (void) { cv_wait_body ((vf_nondet_nv () & 2) | 0); }
-void h_cv_wait_r (void) { cv_wait_body ((vf_nondet_nv () & 2) | 1); }
-void h_mu_wait (void) { mu_wait_body (vf_nondet_nv ()); }
-void h_cv_wait (void) { cv_wait_body (vf_nondet_nv ()); }
+void h_mu_wait_w (void) { mu_wait_body (vf_nondet_nv (), 0); }
+void h_mu_wait_r (void) { mu_wait_body (vf_nondet_nv (), 1); }
+void h_cv_wait_w (void) { cv_wait_body (vf_nondet_nv (), 0); }
+void h_cv_wait_r (void) { cv_wait_body (vf_nondet_nv (), 1); }
+void h_mu_wait (void) { unsigned k = vf_nondet_nv (); mu_wait_body (k, (int) (k & 1)); }
+void h_cv_wait (void) { unsigned k = vf_nondet_nv (); cv_wait_body (k, (int) (k & 1)); }
 /* C14: the mutex stays busy (writer-held for a writer victim, or writer-held/reader-held), so the victim is sent back to sleep again and again */
 void h_lock_long (void) {
 	unsigned k = vf_nondet_nv ();
